@@ -70,7 +70,7 @@ MANIFEST = {
     "note": "Trusted: Coq kernel, extraction, translators uml.py / umlblob.py / vpp.py, sqlite3, CPython str methods and bytes.__repr__ (tied by "
             "execution). The Visual Paradigm writer for class diagrams is an ASSUMPTION calibrated on the one shipped project. Associations, "
             "like everything else of a class diagram, are read back by C19_adaptor_roundtrip. K-C19-6 (free text in quoted values was structure) is "
-            "repaired (78dbf9a; corpus/C19/free_text_injection.json reproduced it and passes now). 'Accepted by a C++ compiler' is an observation (g++ 14 -fsyntax-only), not a theorem. "
+            "repaired (d35a215; corpus/C19/free_text_injection.json reproduced it and passes now). 'Accepted by a C++ compiler' is an observation (g++ 14 -fsyntax-only), not a theorem. "
             "C#: file set and crash observation only (no C# compiler). Known findings K-C19-*.",
 }
 MANIFEST["text"] += " " + MANIFEST.pop("adaptor")
